@@ -200,7 +200,8 @@ def check(prop, tier, seed):
                 notes.append('generated-model tie (function classes): %s — %s' % (gc_.get('status'), gc_.get('reason') or gc_.get('note')))
             if gc_.get('status_validation'):
                 notes.append('generated-model tie (function classes): ' + gc_['status_validation'])
-        for key_, fn_, props_ in (('plottable_data', gentie.gen_tie_plottable, ('C11',)), ('isi_lengths', gentie.gen_tie_isi_lengths, ('C15',))):
+        for key_, fn_, props_ in (('plottable_data', gentie.gen_tie_plottable, ('C11',)), ('isi_lengths', gentie.gen_tie_isi_lengths, ('C15',)),
+                                  ('interval_lists', gentie.gen_tie_interval_lists, ('C05', 'C10', 'C11'))):
             if prop in props_:
                 try:
                     gen_res[key_] = fn_(tier, random.Random(seed * 43 + 17))
